@@ -50,7 +50,15 @@ func Harness_C07_Create() {
 	case 8:
 		p.Patches = []string{"replace", "remove-public-keys"}
 	case 9:
-		patches = []patch.Patch{gen.KeyPatch("kp"), badPatch}
+		// a delta is made only of individually valid patches: one invalid patch of any kind behind a valid one
+		bad := []patch.Patch{badPatch,
+			{patch.ActionKey: "ietf-json-patch", patch.PatchesKey: []interface{}{map[string]interface{}{"op": "replace", "path": "/service/0/type", "value": "x"}}},
+			{patch.ActionKey: "ietf-json-patch", patch.PatchesKey: []interface{}{map[string]interface{}{"op": "move", "from": "/publicKey/0", "path": "/backup"}}},
+			{patch.ActionKey: "ietf-json-patch", patch.PatchesKey: []interface{}{map[string]interface{}{"op": "copy", "from": "x/service", "path": "/backup"}}},
+			{patch.ActionKey: "remove-services", patch.IdsKey: []interface{}{"svc1", 7.0}},
+			{patch.ActionKey: "add-also-known-as", patch.UrisKey: []interface{}{"::bad uri"}},
+		}[verifrt.Choose("invalid-patch", 6)]
+		patches = []patch.Patch{gen.KeyPatch("kp"), bad}
 	}
 	c := gen.NewCreate("c", code, patches...)
 	origin := interface{}(nil)
